@@ -962,10 +962,17 @@ class Table(Vector):
 		if isinstance(other, Table):
 			if len(self.cols()) != len(other.cols()):
 				raise ValueError(f"Column count mismatch: {len(self.cols())} != {len(other.cols())}")
-			return Vector(tuple(x << y for x, y in zip(self.cols(), other.cols(), strict=True)))
+			return self._named_like_self(tuple(x << y for x, y in zip(self.cols(), other.cols(), strict=True)))
 		if len(self.cols()) != len(other):
 			raise ValueError(f"Column count mismatch: {len(self.cols())} != {len(other)}")
-		return Vector(tuple(x << y for x, y in zip(self.cols(), other, strict=True)))
+		return self._named_like_self(tuple(x << y for x, y in zip(self.cols(), other, strict=True)))
+
+	def _named_like_self(self, new_cols):
+		"""A table of new_cols (fresh vectors, one per column of self) under self's column names."""
+		for orig_col, new_col in zip(self.cols(), new_cols):
+			new_col._name = orig_col._name
+			new_col._wild = orig_col._wild
+		return Vector(new_cols)
 
 	def _table_elementwise_operation(self, other, op_func, op_name: str, op_symbol: str):
 		"""
